@@ -65,6 +65,18 @@ CLAIMED = {
  "C14": ("eng-host", "differential between the real host (v0/v1 invoke, interrupts played by the harness) and a reference interpreter with a host-interface model; allocation differential; ASan",
    "Exploration: scripts of v0 and v1 host calls with hostile pointers, lengths, offsets, handles and tags, boundary scripts for every protocol limit, memory growth, crypto primitives and invoke/upgrade interrupts (responses chosen by the harness) are compiled to straight-line Wasm contracts and executed by the real engine with metering for P4..P7 and by the reference interpreter with a model of every host function and the transcribed energy schedule; outcome, return value, logs, v0 state and actions, v1 state contents, state_changed and remaining energy (exact where the schedule is a closed formula) must agree; budget sweeps and charge-before-work runs with an allocation differential check that no proportional work precedes its charge; no execution may panic.",
    "Trusted: the host models model_v0.rs/model_v1.rs and the schedule transcription. Open known finding F9 (copy before charge in get_mut) is listed in known_findings.json. secp256k1 accept path is not observable with the shim; undocumented corners are excluded and counted (skip.undocumented)."),
+ "C05": ("eng-codec", "round-trip + re-encode-equals-consumed-bytes canonicity oracle + panic capture + counting-allocator bound over a registry of 216 types, with and without debug assertions",
+   "Exploration: for 216 registered Serial+Deserial chain types, values built with the library's own constructors round-trip; their encodings are mutated (bit flips, truncation, extension, inflation of every 1/2/4/8-byte length-like window, tag and bitmap sweeps, splicing) and mixed with random bytes; every successful decode must re-encode to exactly the consumed bytes, no decode may panic, and peak allocation per decode is bounded by 64*len + 4096*element + 2 MiB. Ten per cent of the workload is re-run in a build without debug assertions and overflow checks.",
+   "Trusted: the registry's equality notion (HashSet compared as sets; types without PartialEq compared by re-encoding). Ipv4Addr/Ipv6Addr are not chain types and are not registered. Fixed findings F4, F10-F15 are regression inputs."),
+ "C10": ("eng-codec", "typed value generator with an independent contract-side encoder and JSON renderer vs schema_json conversions; panic/allocation monitors on hostile bytes",
+   "Exploration: schema Types are generated to depth 32 with all constructors and size lengths; for each a typed value is generated from which the harness derives both the JSON form and the expected bytes with its own encoder; serial_value(json) must equal the expected bytes and to_json(bytes) the normalised JSON; hostile (Type, bytes) pairs - including declared byte-list/array lengths up to 2^32-1 - must return an error within counted allocation bounds; generated module schemas of every version round-trip with and without prefix and in base64.",
+   "Trusted: the harness encoder/JSON renderer (written from the documented rules). Nesting > 32 and zero-width collections declaring > 2^16 elements are outside the claim (O1, O2). Fixed finding F17 is a regression input."),
+ "C16": ("eng-codec", "round-trip/canonicity/allocation oracles for contract-side types + independent grammar recognisers + u128/i128 reference arithmetic",
+   "Exploration: 63 contract-side binary types are round-tripped and decoded from mutated and random bytes (ordered collections must reject duplicate/unordered input where documented); Display/FromStr pairs of amounts, timestamps, durations, addresses and names must round-trip; validators for contract, receive and entrypoint names, amounts, durations and hex keys/signatures are compared with independent recognisers on grammar-generated and mutated strings; checked arithmetic is compared with u128/i128 reference arithmetic.",
+   "Trusted: the recognisers (written from the doc comments). Open known finding F19 (Timestamp text form beyond year 9999 / 2^63 ms) is listed in known_findings.json; duration strings whose total exceeds u64 are outside the claim (O4). Fixed finding F16 is a regression input."),
+ "C17": ("eng-codec", "round-trip + determinism + independent CBOR well-formedness/canonical-form checker on encoder output + known-invalid edits on decoder input",
+   "Exploration: generic CBOR values (depth <= 64, integers at every head-width boundary, tags, decimal fractions) and 33 protocol-level-token types are encoded, decoded and re-encoded; encoder output is checked by an independent parser for definite lengths, shortest heads and sorted map keys; valid encodings are edited in known-invalid ways (trailing byte, missing mandatory key, undeclared key, wrong major type, truncation, inflated length) and must be rejected unless the type or the options declare otherwise; unknown fields/variants must be preserved where declared; TokenAmount is compared across binary, decimal-string and JSON forms with big-integer arithmetic.",
+   "Trusted: the harness CBOR emitter/checker. Nesting > 64 is outside the claim (O3); which non-canonical inputs the (deliberately liberal) decoder accepts is not judged beyond round-trip of what it returns."),
 }
 
 REFS = {k: "5/" + k for k in CLAIMED}
